@@ -53,7 +53,7 @@ def make_texts(rng, tier):
     texts = []
     fixed = ['rule "x" begin a=1 # end', 'rule "a" begin end rule "a" begin end', "", "   \n\t ", 'rule "" begin end', 'rule "x" salience 99999999999999999999 begin end',
              'rule "x" begin return 1 end trailing garbage', 'rule "x" begin y = 9223372036854775808 end', 'rule "x" begin y = tRuE end', 'rule "x" begin m[""] = 1 end',
-             'rule "x" begin end', BASE, 'rule "x" begin /* c */ end', 'rule "x" "d" "e" begin end', 'rule "x" begin a = "unterminated end', 'rule "x" begin a = 1 // c']
+             'rule "x" begin end', BASE, BASE + "\nxyz #", BASE + " xyz zzz \u89c4\u5219\n", BASE + " zz", BASE + " 5 $", 'rule "a " begin end rule "a" begin end', 'rule "x" begin /* c */ end', 'rule "x" "d" "e" begin end', 'rule "x" begin a = "unterminated end', 'rule "x" begin a = 1 // c']
     for t in fixed:
         texts.append(("fixed", t))
     # truncations: every token-boundary PREFIX and SUFFIX of one valid two-rule text (a text cut right after `rule`, after the
@@ -81,6 +81,11 @@ def make_texts(rng, tier):
             for _ in range(rng.randint(1, 2)):
                 toks.insert(rng.randrange(len(toks) + 1), rng.choice(["#", "$", "`", "'", "?", "~", "^", "%", "\\"]))
             texts.append(("lexer-noise", " ".join(toks)))
+        elif x < 0.47:
+            # a valid text, then tokens that cannot start a rule, then characters no token can start with: what lies behind the
+            # point where the parser stops reading must not matter to one entry point only
+            tail = " ".join(rng.choice(["xyz", "zz", "5", "end", "x.y", "=", "("]) for _ in range(rng.randint(1, 3)))
+            texts.append(("unread-tail", v + "\n" + tail + " " + rng.choice(["#", "$", "`", "\u89c4", "?", "~"]) + rng.choice(["", " more", "\n"])))
         elif x < 0.85:
             texts.append(("mutated", mutate(rng, v)))
         else:
